@@ -117,18 +117,25 @@ is_6531_local (const char *start, const char *end)
                         goto next;
                 }
 
-                if ((ch = utf8_decode_next (&u)) >= 0) {
-                    if (ch > 0x007f)
-                        break;
+                /* peek at the next byte; do not consume it, so that it is
+                 * decoded and judged by the main loop.
+                 */
+                {
+                    int pos = utf8_decode_at_byte (&u);
 
-                    switch (ch) {
-                        case '"':
-                            quote = !quote;
+                    if ((start + pos + 1) < end) {
+                        int next = *(unsigned char *) (start + pos + 1);
+
+                        if (next > 0x007f)
                             break;
-                        case '\n': case '\r': case '\t': case ' ':
-                            break;
-                        default:
-                            return inverse(EEAV_LPART_UNQUOTED_FWS);
+
+                        switch (next) {
+                            case '"':
+                            case '\n': case '\r': case '\t': case ' ':
+                                break;
+                            default:
+                                return inverse(EEAV_LPART_UNQUOTED_FWS);
+                        }
                     }
                 }
             } break;
